@@ -5,7 +5,31 @@ NOTE = ('Trusted: Coq 8.16.1 kernel + vm_compute; the hand-written model is tied
         'runs of this check (inputs listed in evidence); numpy/scipy internals are oracles; IEEE rounding is outside '
         'the theorems.')
 
-CLAIMED = {}
+CLAIMED = {
+    'C12': dict(
+        technique='Coq proof over a Gallina model of get_cycle_vector + exhaustive differential correspondence (all phase sequences up to length 6/8 over a 5-value alphabet)',
+        text='Theorems (Prop_C12.v, closed under the global context) prove for every phase list, threshold set, mask and mode that '
+             'detection is total, labels are exactly 0..K-1 in temporal order, each label is one contiguous run without an internal '
+             'wrap that begins/ends at a wrap or a recording end, everything else is -1, and all-cycles mode covers every sample '
+             'when a wrap exists. The model is tied to emd.cycles.get_cycle_vector by exhaustive comparison on every short phase '
+             'sequence plus long synthetic and multi-column phases, and an independent oracle checks the property on the '
+             'implementation output itself.',
+        note=NOTE),
+    'C13': dict(
+        technique='Coq proof over a Gallina model of is_good / get_cycle_vector / the container flag + exhaustive differential correspondence',
+        text='Theorems (Prop_C13.v) prove that a wrap-delimited segment is labelled iff it meets the four criteria (monotone, start '
+             'edge, end edge, mask), that good cycles are an order-preserving renumbering (get_subset_vector of a selection) of the '
+             'all-cycles partition, and that the container flag agrees with the same criteria. Correspondence over the same '
+             'exhaustive phase space x 4 phase_edge values x random/block masks, plus the criteria oracle on the implementation.',
+        note=NOTE),
+    'C16': dict(
+        technique='Coq proof over a Gallina model of the 12 index maps and 6 projections + exhaustive differential correspondence (all selection vectors up to length 8/12)',
+        text='Theorems (Prop_C16.v) prove for every cycle vector and selection that subset/chain vectors are the ordered numbering / '
+             'maximal runs, every map is defined on every existing index, forward-then-backward contains the original sample, '
+             'forward maps are none exactly for unlabelled/unselected items, and projections place each value exactly on the items '
+             'mapping to it. Correspondence evaluates all maps on every index of every enumerated structure in both array layouts.',
+        note=NOTE),
+}
 
 _PENDING = 'check under construction in this session (model/theorem/correspondence not all in place yet); not claimed until they are'
 NOT_CLAIMED = {('C%02d' % i): _PENDING for i in range(1, 21)}
